@@ -19,10 +19,18 @@
 //!   `p <file> <mut>*`          a corpus property list with token mutations `D<i>` delete token
 //!                              i, `R<i>:<hex>` replace it by the text `<hex>`, `I<i>:<hex>`
 //!                              insert text before it, `C<i>` cut the file after token i,
-//!                              `U<i>:<n>` repeat token i n times. Tokens: `(`, `)`, runs of
+//!                              `U<i>:<n>` repeat token i n times, `N<i>:<hex>` replace (or with a
+//!                              leading/trailing `+`: prefix/suffix) the value token after the next
+//!                              data-type prefix (`C D O H R F`) or character/string property. Tokens: `(`, `)`, runs of
 //!                              blanks, runs of other characters.
 //!   `pt <text>`                literal property-list text (`\n`, `\\`, `\xHH` escapes).
 //!   `pn <n> <text>`            the text followed by n opening parentheses (nesting depth).
+//!   `ct <text>`                a canonical rendering of a well-formed tree: the real CST and the
+//!                              Lean model must read it without warnings and render it back.
+//!   `nf|nu|nb <data>`          the data of one property: the `FixWord` / `u32` / `u8` reader of
+//!                              pl/ast.rs (through `DESIGNUNITS` / `CHECKSUM` / `BOUNDARYCHAR`)
+//!                              against the Lean readers `Num.parseFix` / `parseU32` / `parseU8`
+//!                              (value, span, every warning with span and offset).
 //!   `pg <key=n>*`              a property list built from counts (see `gen_counts_pl`): sub-file
 //!                              counts at and just beyond each format limit, produced from text.
 //!
@@ -155,7 +163,7 @@ fn tokens(s: &str) -> Vec<String> {
 }
 
 /// Texts longer than this (in characters) are not sent to the CST model.
-const CST_LIMIT: usize = 16_000;
+const CST_LIMIT: usize = 10_000;
 /// … and the (well-formed) output of tftopl only up to this length.
 const CST_LIMIT_TFTOPL: usize = 3_000;
 
@@ -421,6 +429,125 @@ fn real_cst(text: &str) -> String {
     join(&out)
 }
 
+/// The real number readers, reached through the public AST (`DESIGNUNITS` = `FixWord`,
+/// `CHECKSUM` = `u32`, `BOUNDARYCHAR` = `u8`), rendered like `DrvC10.showRes`. Positions are
+/// made relative to the start of the data.
+fn real_num(which: &str, data: &str) -> String {
+    use tfm::pl::ast::{Ast, Root};
+    use tfm::pl::ParseWarningKind as K;
+    let key = match which {
+        "fix" => "DESIGNUNITS",
+        "u32" => "CHECKSUM",
+        _ => "BOUNDARYCHAR",
+    };
+    let base = key.len() + 2;
+    let (Ast(roots), warnings) = Ast::from_pl_source_code(&format!("({key} {data})"));
+    let (value, span): (i64, std::ops::Range<usize>) = match roots.first() {
+        Some(Root::DesignUnits(v)) => (v.data.0 as i64, v.data_span.clone()),
+        Some(Root::Checksum(v)) => (v.data as i64, v.data_span.clone()),
+        Some(Root::BoundaryChar(v)) => (v.data.0 as i64, v.data_span.clone()),
+        _ => return format!("unexpected ast ({} roots)", roots.len()),
+    };
+    let mut ws: Vec<i64> = vec![];
+    let mut n = 0;
+    for w in &warnings {
+        let (k, r): (i64, i64) = match &w.kind {
+            K::InvalidPrefixForInteger { .. } => (0, 0),
+            K::InvalidOctalDigit { .. } => (1, 0),
+            K::IntegerIsTooBig { radix } => (2, *radix as i64),
+            K::InvalidPrefixForDecimalNumber => (3, 0),
+            K::DecimalNumberIsTooBig => (4, 0),
+            K::SmallIntegerIsTooBig { radix } => (5, *radix as i64),
+            K::EmptyCharacterValue => (6, 0),
+            K::InvalidFaceCode => (7, 0),
+            K::InvalidPrefixForSmallInteger => (8, 0),
+            K::JunkAfterPropertyValue { .. } => (9, 0),
+            K::NonVisibleAsciiCharacter { .. } => continue,
+            _ => (99, 0),
+        };
+        n += 1;
+        let off = w.knuth_pltotf_offset.map(|x| x as i64 - base as i64).unwrap_or(-1);
+        ws.extend([k, r, w.span.start as i64 - base as i64, w.span.end as i64 - base as i64, off]);
+    }
+    format!("ok {value} {} {} {n} {}", span.start as i64 - base as i64, span.end as i64 - base as i64, join(&ws)).trim_end().to_string()
+}
+
+/// The canonical one-line rendering of a CST (`C10.Cst.render`): `(` key ` ` data children `)`,
+/// comments as `(COMMENT` text `)`.
+fn render_cst(nodes: &[tfm::pl::cst::Node], out: &mut String) {
+    use tfm::pl::cst::Node;
+    for n in nodes {
+        match n {
+            Node::Comment(t) => {
+                out.push_str("(COMMENT");
+                out.push_str(t);
+                out.push(')');
+            }
+            Node::Regular(r) => {
+                out.push('(');
+                out.push_str(&r.key);
+                out.push(' ');
+                out.push_str(r.data.as_deref().unwrap_or(""));
+                render_cst(r.children.as_deref().unwrap_or(&[]), out);
+                out.push(')');
+            }
+        }
+    }
+}
+
+/// A random well-formed tree in canonical rendering: keys over `[A-Za-z0-9/>]` (possibly empty,
+/// never `COMMENT`), data without parentheses that does not start with a blank, comments with
+/// balanced parentheses that do not start with a key character.
+fn gen_canonical(r: &mut Rng, depth: u32, out: &mut String) {
+    let n = r.below(4) + if depth == 0 { 1 } else { 0 };
+    for _ in 0..n {
+        if r.chance(1, 6) {
+            out.push_str("(COMMENT");
+            let mut open = 0;
+            out.push(*r.pick(&[' ', '\n', '-', '.']));
+            for _ in 0..r.below(12) {
+                match r.below(6) {
+                    0 => {
+                        out.push('(');
+                        open += 1;
+                    }
+                    1 if open > 0 => {
+                        out.push(')');
+                        open -= 1;
+                    }
+                    _ => out.push(*r.pick(&['a', 'Z', ' ', '\n', '7', '/', '>', '.', '-'])),
+                }
+            }
+            for _ in 0..open {
+                out.push(')');
+            }
+            out.push(')');
+        } else {
+            out.push('(');
+            let key: String = match r.below(8) {
+                0 => String::new(),
+                1 => "COMMENTS".into(),
+                2 => "/LIG/>".into(),
+                3 => "COMMEN".into(),
+                _ => (0..1 + r.below(8)).map(|_| *r.pick(&['A', 'b', 'C', 'O', 'M', 'E', 'N', 'T', '9', '/', '>'])).collect(),
+            };
+            let key = if key == "COMMENT" { "COMMENT9".to_string() } else { key };
+            out.push_str(&key);
+            out.push(' ');
+            if r.chance(3, 4) {
+                out.push(*r.pick(&['R', 'D', 'x', '-', '.', '5']));
+                for _ in 0..r.below(8) {
+                    out.push(*r.pick(&['a', ' ', ' ', '\n', '1', '.', '-', 'Z']));
+                }
+            }
+            if depth < 4 && r.chance(1, 2) {
+                gen_canonical(r, depth + 1, out);
+            }
+            out.push(')');
+        }
+    }
+}
+
 struct Clamp {
     table: [usize; 4],
     nl: usize,
@@ -603,6 +730,32 @@ impl C10 {
                         "R" => toks[i] = String::from_utf8_lossy(&unhex(arg)).into_owned(),
                         "I" => toks.insert(i, String::from_utf8_lossy(&unhex(arg)).into_owned()),
                         "C" => toks.truncate(i + 1),
+                        "N" => {
+                            // the value token after the next data-type prefix / string property
+                            // at or after token i is replaced by the text
+                            const PRE: &[&str] = &["C", "D", "O", "H", "R", "F", "CODINGSCHEME", "FAMILY", "FACE", "LABEL", "KRN", "LIG", "NEXTLARGER", "TOP", "MID", "BOT", "REP", "BOUNDARYCHAR", "CHARACTER"];
+                            let n = toks.len();
+                            let mut done = false;
+                            for d in 0..n {
+                                let j = (i + d) % n;
+                                if PRE.contains(&toks[j].as_str()) && j + 2 < n && toks[j + 1].chars().all(|c| c.is_whitespace()) && toks[j + 2] != "(" && toks[j + 2] != ")" {
+                                    let t = String::from_utf8_lossy(&unhex(arg)).into_owned();
+                                    // a leading '+' keeps the old token after the text, a trailing '+' before it
+                                    toks[j + 2] = if let Some(x) = t.strip_prefix('+') {
+                                        format!("{x}{}", toks[j + 2])
+                                    } else if let Some(x) = t.strip_suffix('+') {
+                                        format!("{}{x}", toks[j + 2])
+                                    } else {
+                                        t
+                                    };
+                                    done = true;
+                                    break;
+                                }
+                            }
+                            if !done {
+                                toks.push(String::from_utf8_lossy(&unhex(arg)).into_owned());
+                            }
+                        }
                         "U" => {
                             let n: usize = arg.parse().expect("U n");
                             let t = toks[i].clone();
@@ -1023,7 +1176,13 @@ fn gen_number(r: &mut Rng) -> String {
         7 => format!("O {}", *r.pick(&["377", "400", "37777777777", "40000000000", "8", "77777777777777777777"])),
         8 => format!("H {}", *r.pick(&["FF", "100", "FFFFFFFF", "100000000", "G", "FFFFFFFFFFFFFFFFFFFF"])),
         9 => format!("F {}", *r.pick(&["MRR", "BIE", "LIC", "XXX", "MR", ""])),
-        10 => format!("C {}", (r.range(33, 126) as u8) as char),
+        10 => {
+            if r.chance(1, 3) {
+                format!("C {}", r.pick(&["\u{80}", "\u{e9}", "\u{ff}", "\u{100}", "\u{20ac}", "\u{1d11e}", "\u{301}", "\u{1}", "\u{7f}", "\u{9}"]))
+            } else {
+                format!("C {}", (r.range(33, 126) as u8) as char)
+            }
+        }
         11 => format!("D {}", r.below(256)),
         12 => format!("O {:o}", r.below(256)),
         _ => format!("R {}.{}", r.range(-20, 20), r.below(100)),
@@ -1145,7 +1304,7 @@ fn gen_pl(r: &mut Rng) -> String {
             3 => s.push_str(&format!(
                 "({} {})\n",
                 r.pick(&["CODINGSCHEME", "FAMILY"]),
-                r.pick(&["TEX MATH SYMBOLS", "TEX MATH EXTENSION", "ABC", "", "A(B", "XXXXXXXXXXXXXXXXXXXXXXXXXXXXXXXXXXXXXXXXXXXXXXXXXXXXXXXX", "caf\u{e9}"])
+                r.pick(&["TEX MATH SYMBOLS", "TEX MATH EXTENSION", "ABC", "", "A(B", "XXXXXXXXXXXXXXXXXXXXXXXXXXXXXXXXXXXXXXXXXXXXXXXXXXXXXXXX", "caf\u{e9}", "\u{20ac}", "A\u{301}\u{1d11e}", "\u{1}\u{7f}"])
             )),
             4 => s.push_str(&format!("(FACE {})\n", gen_number(r))),
             5 => s.push_str(&format!("(SEVENBITSAFEFLAG {})\n", r.pick(&["TRUE", "FALSE", "T", "X", ""]))),
@@ -1222,7 +1381,7 @@ fn mutate_pl(r: &mut Rng, ntok: usize) -> String {
     let mut muts = vec![];
     for _ in 0..n {
         let i = r.below(ntok.max(1) as u64);
-        let m = match r.below(16) {
+        let m = match r.below(20) {
             0 | 1 => format!("D{i}"),
             2 => format!("I{i}:{}", hex(b"(")),
             3 => format!("I{i}:{}", hex(b")")),
@@ -1235,7 +1394,22 @@ fn mutate_pl(r: &mut Rng, ntok: usize) -> String {
             12 => format!("U{i}:{}", r.pick(&[2usize, 3, 20, 100])),
             13 => format!("R{i}:{}", hex(r.pick(&["C", "D", "O", "H", "R", "F", "X"]).as_bytes())),
             14 => format!("I{i}:{}", hex("(".repeat(*r.pick(&[10usize, 200, 2000])).as_bytes())),
-            _ => format!("R{i}:{}", hex(gen_number(r).as_bytes())),
+            15 => format!("R{i}:{}", hex(gen_number(r).as_bytes())),
+            16 | 17 | 18 => {
+                let x = *r.pick(&["\u{80}", "\u{a0}", "\u{e9}", "\u{ff}", "\u{100}", "\u{20ac}", "\u{ff11}", "\u{1d11e}", "\u{301}", "e\u{301}", "\u{1}", "\u{9}", "\u{7f}", "\u{85}", "\u{feff}"]);
+                let t = match r.below(3) {
+                    0 => x.to_string(),
+                    1 => format!("+{x}"),
+                    _ => format!("{x}+"),
+                };
+                format!("N{i}:{}", hex(t.as_bytes()))
+            }
+            _ => {
+                // a property name with a non-ASCII or control character in it
+                let k = r.pick(KEYWORDS);
+                let x = *r.pick(&["\u{e9}", "\u{20ac}", "\u{301}", "\u{1}", "\u{ff21}"]);
+                format!("R{i}:{}", hex(format!("{k}{x}").as_bytes()))
+            }
         };
         muts.push(m);
     }
@@ -1248,10 +1422,10 @@ impl Property for C10 {
     }
     fn rule(&self) -> String {
         "hs/h: every value of each of the twelve header words (all 2^16 in thorough; stride 64 plus 48 consecutive values at 0, 232, 32744 and 65488 in quick; one hs case = one sweep of up to 256 values, the number of values is in extra.header_word_values_evaluated_in_hs_sweeps) against five base files \
-         (16-byte, 24-byte, minimal consistent 48-byte, a 72-byte consistent file with junk, a 131 068-byte file with lf=32767: stride 8 there except lf and nw), hc: every word of two consistent tables swept with lf and the file length following (0..64 dense in quick, 0..1024 in thorough, sparse to 2^16); then random consistent size tables with random bodies and random 1-3-word damage; \
+         (16-byte, 24-byte, minimal consistent 48-byte, a 72-byte consistent file with junk, a 131 068-byte file with lf=32767: stride 8 there except lf and nw), hc: every word of two consistent tables swept with lf and the file length following (0..64 dense in quick, 0..512 in thorough, sparse to 2^16); then random consistent size tables with random bodies and random 1-3-word damage; \
          t: every corpus .tfm under crates/tfm*/ — all truncation lengths that are multiples of 4 around every sub-file boundary plus random ones, random single-byte and header-word mutations; \
          p: every corpus .plst/.pl — random token mutations (paren deletion/insertion, out-of-range and huge numbers, keyword swaps, undeclared characters in labels, cuts, deep nesting, repeats); \
-         pt: random small property lists from the grammar with deliberate violations; pg: property lists built from counts so that every sub-file count (nw, nh, nd, ni, ne, np, lh, nl, nk, redirect words, bc/ec) sits at and just beyond its format limit, alone, all together, with random combinations, and with lig/kern tables that push lf to and past 2^15 words. Every tftopl output is fed to pltotf and every pltotf output to the reader and tftopl. \
+         ct: random well-formed trees in canonical one-line rendering (round-trip law of the CST, real and model); nf/nu/nb: the three number readers on ~120 boundary strings (≥ 10-digit integers, the radix limits ±1, R with 7/8/many fraction digits around 2047.9999999/2048, sign runs, bad prefixes, face codes) and random strings over their alphabets; pt: random small property lists from the grammar with deliberate violations; pg: property lists built from counts so that every sub-file count (nw, nh, nd, ni, ne, np, lh, nl, nk, redirect words, bc/ec) sits at and just beyond its format limit, alone, all together, with random combinations, and with lig/kern tables that push lf to and past 2^15 words. Every tftopl output is fed to pltotf and every pltotf output to the reader and tftopl. \
          Non-trivial = a byte case of at least 2 bytes, or a text case containing at least one '('; distinct = distinct case string."
             .into()
     }
@@ -1363,7 +1537,7 @@ impl Property for C10 {
         for (fill, words) in [(0u64, [12i64, 2, 1, 0, 1, 1, 1, 1, 0, 0, 0, 0]), (11, [26, 3, 65, 70, 3, 2, 2, 2, 2, 1, 1, 1])] {
             let hexbase = hex(&header_from(&words));
             for w in 1..12 {
-                let top = if th { 1024 } else { 64 };
+                let top = if th { 512 } else { 64 };
                 let mut start = 0;
                 while start < top {
                     v.push(format!("hc 24 {fill} {hexbase} {w} {start} 64 1"));
@@ -1472,7 +1646,7 @@ impl Property for C10 {
             }
             let big = *len > 20_000;
             let n_mut = match (th, big) {
-                (true, false) => 500,
+                (true, false) => 350,
                 (true, true) => 60,
                 (false, false) => 60,
                 (false, true) => 3,
@@ -1578,6 +1752,85 @@ impl Property for C10 {
             }
         }
 
+        // ---- ct: canonical trees (the round-trip law of the CST) ---------------------------
+        {
+            let mut r = rng.fork();
+            for t in ["(A )", "( )", "( x)", "(A B(C D)(E ))", "(COMMENT)", "(COMMENT (a)(b(c)))", "(COMMENTS x)", "(A x\\ny (B z ))"] {
+                v.push(format!("ct {t}"));
+            }
+            for _ in 0..if th { 20_000 } else { 1_500 } {
+                let mut t = String::new();
+                gen_canonical(&mut r, 0, &mut t);
+                v.push(format!("ct {}", esc(&t)));
+            }
+        }
+
+        // ---- nf / nu / nb: the number readers on boundary strings -------------------------
+        {
+            let mut r = rng.fork();
+            let fix: &[&str] = &[
+                "R 0", "R 1", "R -1", "D 1.5", "r 0.5", "d -0.5", "R 2047", "R 2047.9999999", "R 2047.999999", "R 2047.9999994",
+                "R 2047.9999995", "R 2047.99999999999", "R 2048", "R 2048.0", "R -2048", "R 2049", "R 20470", "R 20480", "R 204799999999",
+                "R 9999999999", "R 99999999999999999999999999", "R 4294967296", "R 2147483648", "R 0.0000001", "R 0.00000005",
+                "R 0.9999999", "R 0.99999995", "R 0.12345678", "R .5", "R 5.", "R .", "R", "R -", "R +-+-1.5", "R - - 1", "R + 3", "R 1 .5",
+                "R 1.5.5", "R 1e5", "R 1.5 junk", "X 1.5", "", "R\\n1.5", "R 00000000000000000000001.5", "R 2047.00000000000000000000",
+                "R 1.9999999999999999999999999", "R -2047.9999999", "R -2047.999999", "D 16", "R 15.9999999", "R 1,5", "R 1.5\\x09",
+            ];
+            let u32s: &[&str] = &[
+                "O 0", "O 7", "O 37777777777", "O 40000000000", "O 37777777778", "O 377777777777777777", "O 8", "O 79", "O 12a", "O 1 2",
+                "H 0", "H FFFFFFFF", "H ffffffff", "H 100000000", "H FFFFFFFFF", "H FFFFFFFG", "H 12345678 9", "H", "O", "D 5", "X", "",
+                "h 7f", "o 17", "O 00000000000000000000000017", "H 0000000000000000000000FF", "O 4294967295", "H 4294967296", "O -1", "H +1",
+            ];
+            let u8s: &[&str] = &[
+                "D 0", "D 255", "D 256", "D 2550", "D 99999999999999999999", "D 25 5", "D", "O 377", "O 400", "O 378", "O 8", "H FF", "H 100",
+                "H fg", "H G", "C A", "C", "C  ", "C ~", "C \\x7f", "C \\xc3\\xa9", "C AB", "c a", "F MRR", "F BIE", "F LIC", "F MIE", "F XXX",
+                "F MR", "F", "F M", "F MRRR", "f bie", "X 1", "", "D 00000000000000000255", "D 0256", "O 0000377", "H 0FF", "D -1", "D +1",
+            ];
+            // non-ASCII (2/3/4-byte, U+0080..U+00FF and beyond, combining marks, full-width digits)
+            // and control characters right after every data-type prefix and inside numbers
+            let exotic: &[&str] = &[
+                "\u{80}", "\u{a0}", "\u{e9}", "\u{ff}", "\u{100}", "\u{17f}", "\u{20ac}", "\u{ff11}", "\u{ff21}", "\u{1d11e}", "\u{301}", "e\u{301}",
+                "\u{10ffff}", "\u{1}", "\u{7}", "\u{9}", "\u{1b}", "\u{7f}", "\u{85}", "\u{2028}", "\u{feff}", "\u{0}",
+            ];
+            let mut exo_cases: Vec<String> = vec![];
+            for x in exotic {
+                for pre in ["C ", "c", "C  "] {
+                    exo_cases.push(format!("nb {}", esc(&format!("{pre}{x}"))));
+                    exo_cases.push(format!("nb {}", esc(&format!("{pre}{x}A"))));
+                }
+                for pre in ["D ", "O ", "H ", "F ", "F M", "F MR", "D 1", "H F", ""] {
+                    exo_cases.push(format!("nb {}", esc(&format!("{pre}{x}"))));
+                }
+                for pre in ["R ", "D ", "R -", "R 1", "R 1.", "R 1.5", "R 2047", ""] {
+                    exo_cases.push(format!("nf {}", esc(&format!("{pre}{x}"))));
+                    exo_cases.push(format!("nf {}", esc(&format!("{pre}{x}5"))));
+                }
+                for pre in ["O ", "H ", "O 7", "H F", ""] {
+                    exo_cases.push(format!("nu {}", esc(&format!("{pre}{x}"))));
+                    exo_cases.push(format!("nu {}", esc(&format!("{pre}{x}7"))));
+                }
+            }
+            v.extend(exo_cases);
+            for (cmd, list) in [("nf", fix), ("nu", u32s), ("nb", u8s)] {
+                for s in list {
+                    v.push(format!("{cmd} {s}"));
+                }
+            }
+            let n = if th { 40_000 } else { 2_500 };
+            for _ in 0..n {
+                let (cmd, prefixes, alphabet): (&str, &[&str], &[&str]) = match r.below(3) {
+                    0 => ("nf", &["R ", "D ", "r", "R  ", "R -", "R +-"], &["0", "1", "2", "4", "7", "8", "9", "9", "9", ".", ".", "-", "+", " ", "2047", "2048", "204", "99999", "e", "x", "\u{e9}", "\u{20ac}", "\u{ff15}", "\u{7}"]),
+                    1 => ("nu", &["O ", "H ", "o", "h ", "O  "], &["0", "1", "3", "7", "7", "7", "8", "9", "a", "F", "F", "F", "g", " ", "3777", "FFFF", "4000000000", "\u{e9}", "\u{20ac}", "\u{ff17}", "\u{1b}"]),
+                    _ => ("nb", &["D ", "O ", "H ", "C ", "F ", "d", "X "], &["0", "1", "2", "5", "5", "6", "7", "8", "F", "f", "M", "R", "I", "B", "E", "C", "L", " ", "25", "37", "40", "\u{80}", "\u{ff}", "\u{100}", "\u{20ac}", "\u{1d11e}", "\u{301}", "\u{1}"]),
+                };
+                let mut s = (*r.pick(prefixes)).to_string();
+                for _ in 0..r.below(9) {
+                    s.push_str(*r.pick(alphabet));
+                }
+                v.push(format!("{cmd} {}", esc(&s)));
+            }
+        }
+
         // ---- p: corpus property lists -----------------------------------------------------
         // debugging aid: C10_SKIP_H=1 leaves the header sweeps out
         if std::env::var("C10_SKIP_H").is_ok() {
@@ -1595,9 +1848,9 @@ impl Property for C10 {
             let src = String::from_utf8_lossy(&self.load(rel)).into_owned();
             let ntok = tokens(&src).len();
             let n_mut = match (th, *len) {
-                (true, l) if l > 60_000 => 15,
-                (true, l) if l > 10_000 => 120,
-                (true, _) => 400,
+                (true, l) if l > 60_000 => 10,
+                (true, l) if l > 10_000 => 60,
+                (true, _) => 250,
                 (false, l) if l > 10_000 => 6,
                 (false, _) => 30,
             };
@@ -1707,6 +1960,14 @@ impl Property for C10 {
                     for i in 0..toks.len() {
                         c.push(without(i, i + 1));
                     }
+                }
+            }
+            "nf" | "nu" | "nb" => {
+                let d: Vec<char> = unesc(rest).chars().collect();
+                for i in 0..d.len() {
+                    let mut o = d.clone();
+                    o.remove(i);
+                    c.push(format!("{cmd} {}", esc(&o.iter().collect::<String>())));
                 }
             }
             "pg" => {
@@ -1865,6 +2126,68 @@ impl C10 {
                         self.check_text(&pl, drv, &mut out, "tftopl>");
                     }
                 }
+            }
+            "ct" => {
+                // the round-trip law of the CST on a canonical text: no warnings, and rendering
+                // the tree gives the text back — for the real parser and (by Lean) for the model
+                let text = unesc(rest);
+                out.nontrivial = text.contains('(');
+                out.tag("case:ct");
+                match caught(|| {
+                    let (tfm::pl::cst::Cst(tree), warnings) = tfm::pl::cst::Cst::from_pl_source_code(&text);
+                    let mut back = String::new();
+                    render_cst(&tree, &mut back);
+                    (back, warnings.len())
+                }) {
+                    Err(p) => out.fail(Kind::ImplPanic, "cst", format!("panic {}", strip_msg(&p)), p),
+                    Ok((back, nw)) => {
+                        if nw != 0 || back != text {
+                            out.fail(Kind::ImplVsSpec, "cst", "canonical text does not round-trip through the real CST", format!("warnings {nw}\ntext: {text:?}\nback: {back:?}"));
+                        }
+                    }
+                }
+                let mut req = String::from("cstrt");
+                for c in text.chars() {
+                    req.push_str(&format!(" {}", c as u32));
+                }
+                let m = drv.ask(&req);
+                if m != "warnings=0 same=1" {
+                    out.fail(Kind::ModelVsSpec, "cst", "canonical text does not round-trip through the CST model", format!("{m}\ntext: {text:?}"));
+                }
+                self.check_cst(&text, drv, &mut out, "");
+            }
+            "nf" | "nu" | "nb" => {
+                let which = match cmd {
+                    "nf" => "fix",
+                    "nu" => "u32",
+                    _ => "u8",
+                };
+                // the data of a CST node: no parentheses, no leading blanks, Unix line ends
+                let data: String = unesc(rest).chars().filter(|c| *c != '(' && *c != ')' && *c != '\r').collect();
+                let data = data.trim_start_matches([' ', '\n']).to_string();
+                out.nontrivial = !data.is_empty();
+                out.tag(format!("case:{cmd}"));
+                let mut req = format!("num {which}");
+                for c in data.chars() {
+                    req.push_str(&format!(" {}", c as u32));
+                }
+                let m = drv.ask(&req);
+                if m == "panic" {
+                    out.fail(Kind::ModelVsSpec, "num", format!("number model panics ({which})"), format!("data {data:?}"));
+                }
+                match caught(|| real_num(which, &data)) {
+                    Err(p) => out.fail(Kind::ImplPanic, "num", format!("panic {}", strip_msg(&p)), format!("the {which} reader panicked on {data:?}: {p}")),
+                    Ok(i) => {
+                        let w: Vec<&str> = i.split(' ').collect();
+                        out.tag(format!("num:{which}:{}", if w.len() > 4 && w[4] != "0" { format!("warning-kind-{}", w.get(5).unwrap_or(&"?")) } else { "clean".into() }));
+                        if i != m {
+                            out.fail(Kind::ImplVsModel, "num", format!("{which} reader differs from the model"), format!("data {data:?}\nimpl:  {i}\nmodel: {m}"));
+                        }
+                    }
+                }
+                // and the whole converter must take the same text
+                let key = match which { "fix" => "DESIGNUNITS", "u32" => "CHECKSUM", _ => "BOUNDARYCHAR" };
+                self.check_text(&format!("({key} {data})"), drv, &mut out, "");
             }
             "p" | "pt" | "pn" | "pg" => {
                 let text = self.text_of_case(cmd, rest);
